@@ -448,7 +448,18 @@ def _v_incoming_sets(tree):
     M.replace_expr(g, lambda e: M.src_is(e, "incoming[w].append(v)"), M.expr("incoming[w].add(v)"))
 
 
+def _v_adjacency_skips_scanned_neighbours(tree):
+    g = M.find_func(tree, "_undirected_adjacency")
+    outer = [x for x in g.body if isinstance(x, ast.For)][0]
+    inner = [x for x in outer.body if isinstance(x, ast.For)][0]
+    inner.body.insert(0, M.stmts("if w in scanned:\n    continue")[0])
+    outer.body.append(M.stmts("scanned.add(v)")[0])
+    g.body.insert(g.body.index(outer), M.stmts("scanned = set()")[0])
+
+
 VARIANTS = [
+    M.Variant("shared adjacency helper skips neighbours whose own list was already read (seed C15-O)", AR, _v_adjacency_skips_scanned_neighbours, "C15-O1"),
+
     M.Variant("pagerank de-duplicates in-links but counts every listing (seed C15-B)", PR, _v_incoming_sets, "C15-O4"),
 
     M.Variant("articulation DFS walks the callback directly (original defect)", AR, _v_direct_neighbors, "C15-O1"),
